@@ -8,6 +8,7 @@ package main
 import (
 	"crypto/sha256"
 	"encoding/base64"
+	"encoding/binary"
 	"encoding/hex"
 	"encoding/json"
 	"fmt"
@@ -63,6 +64,7 @@ type Result struct {
 	ABIFlags   []string         `json:"abi_flags,omitempty"`
 	Flags      []string         `json:"flags,omitempty"`
 	KernelInfo []map[string]any `json:"kernel_info,omitempty"`
+	Motifs     map[string]int   `json:"motifs,omitempty"`
 }
 
 // Args is the kernel argument block of generated kernels (64 bytes).
@@ -223,6 +225,26 @@ func runGenerated(p *plat.Platform, cs *Case, res *Result) {
 		outs = append(outs, o)
 		progress.Add(1)
 	}
+	if len(prog.Patches)+len(prog.TabInit) > 0 {
+		// host-prepared pointer / index tables of the dependent-load motifs: the
+		// addresses are known now; TAB is written once more before any kernel
+		// runs and never by a kernel
+		for _, w := range prog.TabInit {
+			binary.LittleEndian.PutUint32(tabData[w.Off:], w.Val)
+		}
+		for _, pt := range prog.Patches {
+			base := uint64(tab)
+			if pt.Base == "out" {
+				base = uint64(outs[pt.K])
+			}
+			for i := 0; i < pt.Count; i++ {
+				binary.LittleEndian.PutUint64(tabData[pt.Off+8*i:], base+uint64(pt.Add+pt.Stride*int64(i)))
+			}
+		}
+		d.MemCopyH2D(ctx, tab, tabData)
+		progress.Add(1)
+	}
+	res.Motifs = prog.Motifs
 	if cs.Plat.UseGPU > 1 {
 		d.SelectGPU(ctx, cs.Plat.UseGPU)
 	}
